@@ -2,7 +2,7 @@ import MindsVerif.Model.Fallback
 import MindsVerif.Gen.SaTables
 /-! Line protocol driver for the C17 models (tables = the generated `Gen.SaTables`).
 
-R <w:0|1> <tree>                       → `raise=<exc|none> clean=<0|1>`          (saRaises / clean at ctx stmt)
+R <w:0|1> <tree>                       → `raise=<exc|none> clean=<0|1> shaped=<0|1>`   (saRaises / clean / shaped at ctx stmt)
 C <col>*                               → `raise=<exc|none> cols=<col>*`           (prepareCols;  col ::= <type:xHEX|~>:<pk 0|1>)
 W <inner> <printer> <fb> <dialect> <xHEX> → `rendering` | `fallback xHEX` | `raised <exc>`   (inner, printer ::= ret | <exc>)
 
@@ -12,7 +12,9 @@ tree ::= ( <tag> <field>* <tree>* )     fields: naturals, `-` (no alias / None),
 open MindsVerif.Fallback MindsVerif.Gen
 
 def G : Tables :=
-  ⟨SaTables.typesMapKeys, SaTables.methods, SaTables.functionsKeys, SaTables.opmap, SaTables.listOps, SaTables.textHas⟩
+  { typesMap := SaTables.typesMapKeys, methods := SaTables.methods, functions := SaTables.functionsKeys,
+    opmap := SaTables.opmap, listOps := SaTables.listOps, textHas := SaTables.textHas,
+    tupleIsList := SaTables.tupleIsList, dupExc := excOfProbe SaTables.dupExc }
 
 def hexVal (c : Char) : Nat :=
   if c.isDigit then c.toNat - '0'.toNat else if 'a' ≤ c ∧ c ≤ 'f' then c.toNat - 'a'.toNat + 10 else 0
@@ -64,7 +66,7 @@ def tagOf (name : String) (f : List String) : Option Tag :=
   | "const", [a] => some (.const (alOf a))
   | "ident", [n, s, a] => some (.ident (n.toNat?.getD 0) (unhex s) (alOf a))
   | "select", [m, a] => some (.select (modeOf m) (alOf a))
-  | "union", [a] => some (.union (alOf a))
+  | "union", [u, a] => some (.union (boolOf u) (alOf a))
   | "func", [d, h, a] => some (.func (boolOf d) (boolOf h) (alOf a))
   | "binop", [o, a] => some (.binop (unhex o) (alOf a))
   | "unop", [o, a] => some (.unop (unhex o) (alOf a))
@@ -113,7 +115,7 @@ def handle (line : String) : String :=
     match readNode rest with
     | some (t, []) =>
       let r := saRaises G (boolOf w) .stmt t
-      s!"raise={match r with | some e => excStr e | none => "none"} clean={if clean G (boolOf w) .stmt t then 1 else 0}"
+      s!"raise={match r with | some e => excStr e | none => "none"} clean={if clean G (boolOf w) .stmt t then 1 else 0} shaped={if shaped G (boolOf w) .stmt t then 1 else 0}"
     | _ => "bad-tree"
   | "C" :: cols =>
     let r := prepareCols G (cols.map colOf)
@@ -121,7 +123,7 @@ def handle (line : String) : String :=
   | ["W", inner, printer, fb, dialect, text] =>
     let i : Outcome Unit := match excOf inner with | some e => .raise e | none => .ret ()
     let p : Outcome String := match excOf printer with | some e => .raise e | none => .ret (unhex text)
-    match getExecParams i p (boolOf fb) (SaTables.dialects.lookup dialect |>.getD dialect) with
+    match getExecParams i p (boolOf fb) (SaTables.dialects.lookup dialect |>.getD dialect) SaTables.pgKeepsLiteral with
     | .rendering _ => "rendering"
     | .fallback s => "fallback " ++ tohex s
     | .raised e => "raised " ++ excStr e
